@@ -70,7 +70,10 @@ EPS = 2.0 ** -53
 
 def close(impl, exact, scale, factor=64.0):
     """|impl - exact| <= factor * eps * scale, with exact/scale rationals (Fractions)"""
-    d = abs(Fraction(float(impl)) - exact)
+    x = float(impl)
+    if x != x or x in (float('inf'), float('-inf')):
+        return False                    # a non-finite result is never close to an exact rational
+    d = abs(Fraction(x) - exact)
     return d <= Fraction(factor) * Fraction(EPS) * scale
 
 
